@@ -361,6 +361,13 @@ func c10Specs(tier string) []*clustermc.Spec {
 		mk(&c10Params{Name: fmt.Sprintf("MaxIdleDuration=100ms P=3 N=%d", n), Keys: keys[:2], Depth: idleDepth, Idle: true,
 			Opts: simcluster.Opts{N: n, Partitions: 3, MaxIdle: c10Window}})
 	}
+	// the limits given for this one DMap (config.DMaps.Custom) instead of for all DMaps
+	mk(&c10Params{Name: "MaxKeys=2 P=3 LRUSamples=5 N=2 per-DMap-config", Keys: keys, Depth: depth, EntryLen: entryLen,
+		Opts: simcluster.Opts{N: 2, Partitions: 3, LRU: true, MaxKeys: 2, LRUSamples: 5, Custom: "d"}})
+	mk(&c10Params{Name: "MaxInuse=1entries P=3 LRUSamples=2 N=1 per-DMap-config", Keys: keys, Depth: depth, EntryLen: entryLen,
+		Opts: simcluster.Opts{N: 1, Partitions: 3, LRU: true, MaxInuse: entryLen * 3, LRUSamples: 2, Custom: "d"}})
+	mk(&c10Params{Name: "MaxIdleDuration=100ms P=3 N=2 per-DMap-config", Keys: keys[:2], Depth: idleDepth, Idle: true,
+		Opts: simcluster.Opts{N: 2, Partitions: 3, MaxIdle: c10Window, Custom: "d"}})
 	// the same with 128-byte tables and a "fill" event: keys that sit in a sealed (non-active) table
 	mk(&c10Params{Name: "MaxIdleDuration=100ms P=3 N=1 table=128 keys-in-sealed-table", Keys: keys[:2], Depth: idleDepth, Idle: true, Sealed: true,
 		Opts: simcluster.Opts{N: 1, Partitions: 3, MaxIdle: c10Window, TableSize: 128}})
